@@ -93,7 +93,7 @@ def main():
         elif k == "--only":
             ONLY.extend(args.pop(0).split(","))
     names = args or sorted(n for n in os.listdir(SEEDED) if os.path.isfile(os.path.join(SEEDED, n, "patch.diff")))
-    path = os.path.join(SEEDED, "MATRIX.json")
+    path = os.environ.get("VERIF_MATRIX") or os.path.join(SEEDED, "MATRIX.json")  # (a second concurrent run writes elsewhere, merged afterwards)
     matrix = json.load(open(path)) if os.path.exists(path) else {}
     with ThreadPoolExecutor(jobs) as ex:
         for name, r in ex.map(lambda n: run_seed_safe(n, tier), names):
